@@ -32,11 +32,14 @@ def observe(ad, rid, times=None, detail=False, style_catalogue=None, use_cache=F
   else:
     times = sorted(set(times) | set(sigticks if sigok else ()))
   obs = []
+  obsc = []
   params = []
   for t in times:
-    isd = ISD.from_model(doc, Fraction(t, D), sig if use_cache else None)
+    isd = ISD.from_model(doc, Fraction(t, D))
     obs.append(project_isd(isd, detail))
     params.append(doc_params(isd))
+    if use_cache:
+      obsc.append(project_isd(ISD.from_model(doc, Fraction(t, D), sig), detail))
   seq = ISD.generate_isd_sequence(doc)
   seqt = []
   seqd = []
@@ -46,4 +49,6 @@ def observe(ad, rid, times=None, detail=False, style_catalogue=None, use_cache=F
     seqd.append([r["digest"] for r in project_isd(isd, False) if r["paints"]])
   rec = {"id": rid, "doc": {k: ad[k] for k in TTML_FIELDS}, "times": times, "obs": obs, "sig": sigticks, "sigok": sigok,
          "seqt": seqt, "seqd": seqd, "params": params, "srcparams": doc_params(doc)}
+  if use_cache:
+    rec["obsc"] = obsc
   return rec
